@@ -95,8 +95,10 @@ Definition epub_legacy (opf_dir href : str) : str := if is_abs href then tl href
 Definition basename (t : str) : str := last (split_slash t) [].
 Definition xlsx_image_legacy (target : str) : str :=
   if is_abs target then tl target else s "xl/media/" ++ basename target.
-(* ODF extractors: ctx.exists(href) / ctx.read_bytes(href) — the href is the member name, verbatim *)
-Definition odf_member (href : str) : str := href.
+(* ODF extractors before fixes/C14-odf-href-and-ods-counter.patch: the href was the member name, verbatim *)
+Definition odf_legacy (href : str) : str := href.
+(* open_office/_shared.odf_member_name(href) = resolve_part_name("", href), used for ctx.exists / ctx.read_bytes *)
+Definition odf_member (href : str) : str := resolve_part [] href.
 
 (* ------------------------------------------------------------------ 2. sniffers (bytes = list Z) *)
 Open Scope Z_scope.
@@ -205,7 +207,8 @@ Section Numbering.
                 end
     end.
 
-  (* ods_extractor._extract_images: the counter is incremented before the existence check *)
+  (* ods_extractor._extract_images before fixes/C14-odf-href-and-ods-counter.patch: the counter was incremented
+     before the existence check (kept for the refutation; the repaired loop is number_found) *)
   Fixpoint number_all (k : Z) (l : list A) : list (Z * B) :=
     match l with
     | [] => []
